@@ -8,6 +8,7 @@ import (
 	"net/http"
 	"net/url"
 	"reflect"
+	"strings"
 	"sync"
 	"sync/atomic"
 	"time"
@@ -354,6 +355,55 @@ func c20(x *mon.Ctx) {
 		}
 	}
 	retryOverRealHTTP(x)
+	// one RetryHTTPSGetter value used again and again (a long-lived verifier keeps one): what an earlier Get ran into — a URL that
+	// failed until the timeout, a success — says nothing about the next Get. The wrapped getter is scripted per URL and records
+	// every call: after the endpoint has recovered, the next Get asks it and returns its answer.
+	{
+		const class = "retry/same-getter-value-again"
+		type step struct {
+			url     string
+			healthy bool // the state of the endpoint when this Get is made
+		}
+		n := 0
+		for hi, hist := range [][]step{
+			{{"u1", false}, {"u1", true}},
+			{{"u1", false}, {"u2", true}, {"u1", true}, {"u1", true}},
+			{{"u1", true}, {"u1", false}, {"u1", true}},
+			{{"u1", false}, {"u1", false}, {"u1", true}, {"u2", false}, {"u2", true}},
+			{{"u1", true}, {"u2", true}, {"u1", true}},
+		} {
+			inner := &urlScripted{healthy: map[string]bool{}, calls: map[string]int{}}
+			g := &trust.RetryHTTPSGetter{Timeout: 60 * time.Millisecond, MaxRetryDelay: 10 * time.Millisecond, Getter: inner}
+			for si, st := range hist {
+				inner.set(st.url, st.healthy)
+				before := inner.count(st.url)
+				var b []byte
+				var err error
+				pv, _ := mon.Guard(func() { _, b, err = g.Get("https://example.invalid/" + st.url) })
+				asked := inner.count(st.url) - before
+				prob := ""
+				switch {
+				case pv != "":
+					prob = "panic: " + pv
+				case st.healthy && err != nil:
+					prob = fmt.Sprintf("the endpoint answers, yet Get returned %v after asking the wrapped getter %d time(s)", err, asked)
+				case st.healthy && (asked != 1 || string(b) != "body of "+st.url):
+					prob = fmt.Sprintf("the endpoint answers at once: the wrapped getter was asked %d time(s) and Get returned %q", asked, b)
+				case !st.healthy && err == nil:
+					prob = fmt.Sprintf("the endpoint fails every request, yet Get returned %q without an error (wrapped getter asked %d time(s))", b, asked)
+				case !st.healthy && asked < 1:
+					prob = "the endpoint was not asked at all"
+				}
+				param := fmt.Sprintf("history%d/step%d/%s/healthy=%v", hi, si, st.url, st.healthy)
+				if prob != "" {
+					x.Violation(class, param, "one RetryHTTPSGetter value, Get number "+fmt.Sprint(si+1)+": "+prob, "none", param)
+				}
+				x.Note(class, param, err == nil, pv != "", prob == "")
+				n++
+			}
+		}
+		x.Require(class, n/2, n/4, n)
+	}
 	// the default getter (the anchor "DefaultHTTPSGetter": 2 min timeout, 30 s maximum delay, the production inner getter) is a
 	// fresh value per call: a caller that tunes the one it was given does not re-configure everybody else's
 	{
@@ -405,4 +455,34 @@ func head(d []time.Duration, n int) []time.Duration {
 func retryHeaders() map[string][]string {
 	return map[string][]string{"Tcb-Info-Issuer-Chain": {"chain-value"}, "TCB-Info-Issuer-Chain": {"as-documented"}, "x-lower-case": {"v"}, "Request-ID": {"r1"},
 		"X-Other": {"a", "b"}, "X-No-Values": {}, "X-Empty-Value": {""}}
+}
+
+// urlScripted is a wrapped getter whose endpoints are healthy or failing per URL; it counts the calls per URL.
+type urlScripted struct {
+	mu      sync.Mutex
+	healthy map[string]bool
+	calls   map[string]int
+}
+
+func (u *urlScripted) key(url string) string { return url[strings.LastIndex(url, "/")+1:] }
+func (u *urlScripted) set(k string, h bool) {
+	u.mu.Lock()
+	u.healthy[k] = h
+	u.mu.Unlock()
+}
+func (u *urlScripted) count(k string) int {
+	u.mu.Lock()
+	defer u.mu.Unlock()
+	return u.calls[k]
+}
+func (u *urlScripted) Get(url string) (map[string][]string, []byte, error) {
+	k := u.key(url)
+	u.mu.Lock()
+	u.calls[k]++
+	h := u.healthy[k]
+	u.mu.Unlock()
+	if !h {
+		return nil, nil, errors.New("scripted: endpoint down")
+	}
+	return map[string][]string{"X": {k}}, []byte("body of " + k), nil
 }
